@@ -29,7 +29,7 @@ impl Acc {
         *self.counters.entry(k.to_string()).or_insert(0) += n;
     }
     pub fn violation(&mut self, sig: &str, what: String, witness: Value) {
-        if self.violations.len() < 40 {
+        if self.violations.len() < 400 && self.violations.iter().filter(|v| v.sig == sig).count() < 3 {
             self.violations.push(Violation {
                 sig: sig.to_string(),
                 what,
@@ -134,7 +134,6 @@ where
     F: Fn(usize, &mut Acc) + Sync,
 {
     use std::io::{Read, Write};
-    use std::os::fd::FromRawFd;
     use std::sync::atomic::{AtomicUsize, Ordering};
     let workers = workers.max(1).min(n.max(1));
     if workers == 1 || std::env::var("VERIF_NOFORK").is_ok() {
@@ -154,51 +153,63 @@ where
         c.store(0, Ordering::SeqCst);
     }
     let _ = std::io::stdout().flush();
-    let mut kids = vec![];
-    for w in 0..workers {
-        let mut fds = [0i32; 2];
-        assert_eq!(unsafe { sys::pipe(fds.as_mut_ptr()) }, 0);
-        let pid = unsafe { sys::fork() };
-        assert!(pid >= 0, "fork failed");
-        if pid == 0 {
-            // child
-            unsafe { sys::close(fds[0]) };
-            rec::install_hook_observer();
-            let mut acc = Acc::default();
-            loop {
-                let i = cells[0].fetch_add(1, Ordering::SeqCst);
-                if i >= n {
-                    break;
-                }
-                cells[1 + w].store(i + 1, Ordering::SeqCst);
-                let r = std::panic::catch_unwind(std::panic::AssertUnwindSafe(|| f(i, &mut acc)));
-                if r.is_err() {
-                    acc.notes.push(format!("harness panicked on item {i}"));
-                    acc.add("harness_errors", 1);
-                }
-                cells[1 + w].store(0, Ordering::SeqCst);
-            }
-            let mut out = unsafe { std::fs::File::from_raw_fd(fds[1]) };
-            let _ = out.write_all(serde_json::to_string(&acc.to_json()).unwrap().as_bytes());
-            let _ = out.flush();
-            drop(out);
-            unsafe { sys::_exit(0) };
-        }
-        unsafe { sys::close(fds[1]) };
-        kids.push((pid, fds[0], w));
-    }
+    let dir = format!("{}/scratch/par-{}-{}", crate::util::VERIF_DIR, std::process::id(), {
+        static CALLS: AtomicUsize = AtomicUsize::new(0);
+        CALLS.fetch_add(1, Ordering::SeqCst)
+    });
+    let _ = std::fs::create_dir_all(&dir);
     let mut accs = vec![];
-    for (pid, fd, w) in kids {
-        let mut inp = unsafe { std::fs::File::from_raw_fd(fd) };
-        let mut buf = String::new();
-        let _ = inp.read_to_string(&mut buf);
-        let mut status = 0i32;
-        unsafe { sys::waitpid(pid, &mut status, 0) };
-        let parsed = serde_json::from_str::<Value>(&buf).ok().map(|v| Acc::from_json(&v));
-        match parsed {
-            Some(a) if status == 0 => accs.push(a),
-            other => {
-                let mut a = other.unwrap_or_default();
+    let mut round = 0;
+    // a worker that dies only loses the item it was working on: results are written per item and
+    // the other workers keep taking items; if every worker died, a new batch is forked
+    while cells[0].load(Ordering::SeqCst) < n && round < 64 {
+        let mut kids = vec![];
+        for w in 0..workers {
+            let path = format!("{dir}/r{round}-w{w}.jsonl");
+            cells[1 + w].store(0, Ordering::SeqCst);
+            let pid = unsafe { sys::fork() };
+            assert!(pid >= 0, "fork failed");
+            if pid == 0 {
+                // child
+                rec::install_hook_observer();
+                let mut out = std::fs::File::create(&path).expect("create worker file");
+                loop {
+                    let i = cells[0].fetch_add(1, Ordering::SeqCst);
+                    if i >= n {
+                        break;
+                    }
+                    cells[1 + w].store(i + 1, Ordering::SeqCst);
+                    let mut acc = Acc::default();
+                    let r = std::panic::catch_unwind(std::panic::AssertUnwindSafe(|| f(i, &mut acc)));
+                    if r.is_err() {
+                        acc.notes.push(format!("harness panicked on item {i}"));
+                        acc.add("harness_errors", 1);
+                    }
+                    let mut line = serde_json::to_string(&acc.to_json()).unwrap();
+                    line.push('\n');
+                    let _ = out.write_all(line.as_bytes());
+                    let _ = out.flush();
+                    cells[1 + w].store(0, Ordering::SeqCst);
+                }
+                drop(out);
+                unsafe { sys::_exit(0) };
+            }
+            kids.push((pid, w, path));
+        }
+        for (pid, w, path) in kids {
+            let mut status = 0i32;
+            unsafe { sys::waitpid(pid, &mut status, 0) };
+            let mut buf = String::new();
+            if let Ok(mut fh) = std::fs::File::open(&path) {
+                let _ = fh.read_to_string(&mut buf);
+            }
+            for line in buf.lines() {
+                if let Ok(v) = serde_json::from_str::<Value>(line) {
+                    accs.push(Acc::from_json(&v));
+                }
+            }
+            if status != 0 {
+                let mut a = Acc::default();
                 let item = cells[1 + w].load(Ordering::SeqCst);
                 a.add("worker_deaths", 1);
                 a.violation(
@@ -212,7 +223,9 @@ where
                 accs.push(a);
             }
         }
+        round += 1;
     }
+    let _ = std::fs::remove_dir_all(&dir);
     accs
 }
 
